@@ -5,6 +5,10 @@ import ScoresVerif.Model.Isotonic
 import Mathlib.Tactic.Linarith
 import Mathlib.Algebra.Order.Field.Rat
 import Mathlib.Data.List.Chain
+import Mathlib.Tactic.Ring
+import Mathlib.Tactic.FieldSimp
+import Mathlib.Tactic.Positivity
+import Mathlib.Tactic.NormNum
 
 namespace SV.Model.Isotonic
 variable {α : Type}
@@ -151,5 +155,742 @@ theorem pav_ok (obs : α → Rat) (solve : List α → Rat) (ys : List α) : ∀
       obtain ⟨x, _, rfl⟩ := List.mem_map.mp hc
       exact raw_ok obs solve x
     exact go_ok obs solve _ _ _ (by simp) (hall b (by simp)) (fun c hc => hall c (by simp [hc]))
+
+/-! ### 4. block boundaries occur only where the observations strictly increase -/
+
+/-- the last observation of `a` is strictly below the first observation of `b` -/
+def Good (obs : α → Rat) (a b : Blk α) : Prop := ∀ x ∈ a.items.getLast?, ∀ y ∈ b.items.head?, obs x < obs y
+def IsRaw (obs : α → Rat) (b : Blk α) : Prop := ∃ x, b = raw obs x
+def GR (obs : α → Rat) (a b : Blk α) : Prop := Good obs a b ∨ (IsRaw obs a ∧ IsRaw obs b)
+
+theorem GR.good {obs : α → Rat} {a b : Blk α} (h : GR obs a b) (hlt : a.val < b.val) : Good obs a b := by
+  rcases h with h | ⟨⟨x, rfl⟩, ⟨y, rfl⟩⟩
+  · exact h
+  · intro x' hx y' hy
+    simp only [raw, List.getLast?_singleton, List.head?_cons, Option.mem_def, Option.some.injEq] at hx hy
+    subst hx; subst hy
+    exact hlt
+
+theorem takeRun_good (obs : α → Rat) (b : Blk α) (l : List (Blk α)) (hne : ∀ c ∈ l, c.items ≠ [])
+    (hch : (b :: l).IsChain (GR obs)) :
+    ∀ s ∈ (takeRun b.val l).2.head?, ∀ x ∈ (b.items ++ (takeRun b.val l).1).getLast?, ∀ y ∈ s.items.head?,
+      obs x < obs y := by
+  induction l generalizing b with
+  | nil => simp [takeRun]
+  | cons s rest ih =>
+    have hbs : GR obs b s := (List.isChain_cons_cons.mp hch).1
+    have hrest : (s :: rest).IsChain (GR obs) := (List.isChain_cons_cons.mp hch).2
+    unfold takeRun
+    split
+    · rename_i hlt
+      intro s' hs' x hx y hy
+      simp only [List.head?_cons, Option.mem_def, Option.some.injEq] at hs'
+      subst hs'
+      simp only [List.append_nil] at hx
+      exact hbs.good hlt x hx y hy
+    · intro s' hs' x hx y hy
+      have hsne : s.items ≠ [] := hne s (by simp)
+      have hY : s.items ++ (takeRun s.val rest).1 ≠ [] := by simp [hsne]
+      rw [List.getLast?_append_of_ne_nil _ hY] at hx
+      exact ih s (fun c hc => hne c (by simp [hc])) hrest s' hs' x hx y hy
+
+/-- the pooled block followed by the untouched remainder is again a chain, and its head link is Good -/
+theorem pool_chain (obs : α → Rat) (solve : List α → Rat) (c n : Blk α) (rest : List (Blk α))
+    (hne : ∀ b ∈ n :: rest, b.items ≠ []) (hch : (n :: rest).IsChain (GR obs)) :
+    (pool solve c n rest :: (takeRun n.val rest).2).IsChain (GR obs) := by
+  refine List.IsChain.cons ?_ ?_
+  · exact List.IsChain.suffix (List.IsChain.tail hch) (takeRun_suffix _ _)
+  · intro s hs
+    left
+    intro x hx y hy
+    have hY : n.items ++ (takeRun n.val rest).1 ≠ [] := by simp [hne n (by simp)]
+    have hx' : x ∈ (n.items ++ (takeRun n.val rest).1).getLast? := by
+      have : (pool solve c n rest).items = c.items ++ (n.items ++ (takeRun n.val rest).1) := by
+        simp [pool, List.append_assoc]
+      rw [this, List.getLast?_append_of_ne_nil _ hY] at hx
+      exact hx
+    exact takeRun_good obs n rest (fun b hb => hne b (by simp [hb])) hch s hs x hx' y hy
+
+theorem go_good (obs : α → Rat) (solve : List α → Rat) (left : List (Blk α)) (cur : Blk α) (right : List (Blk α))
+    (hne : ∀ b ∈ cur :: left ++ right, b.items ≠ [])
+    (h1 : (left.reverse ++ [cur]).IsChain (Good obs)) (h2 : (cur :: right).IsChain (GR obs)) :
+    (go solve left cur right).IsChain (Good obs) := by
+  refine go_inv solve (fun l c r => (∀ b ∈ c :: l ++ r, b.items ≠ []) ∧ (l.reverse ++ [c]).IsChain (Good obs) ∧
+      (c :: r).IsChain (GR obs)) (fun res => res.IsChain (Good obs)) ?_ ?_ ?_ ?_ left cur right ⟨hne, h1, h2⟩
+  · rintro l c ⟨_, h1, _⟩
+    simpa using h1
+  · rintro l c n rest hlt ⟨hne, h1, h2⟩
+    refine ⟨?_, ?_, (List.isChain_cons_cons.mp h2).2⟩
+    · intro b hb
+      apply hne b
+      simp only [List.cons_append, List.mem_cons, List.mem_append] at hb ⊢
+      tauto
+    · have hg : Good obs c n := (List.isChain_cons_cons.mp h2).1.good hlt
+      rw [List.reverse_cons]
+      refine List.IsChain.append h1 (List.isChain_singleton _) ?_
+      intro x hx y hy
+      simp only [List.getLast?_append, List.getLast?_singleton, Option.mem_def, Option.some_or, Option.some.injEq,
+        List.head?_cons] at hx hy
+      subst hx; subst hy
+      exact hg
+  · rintro c n rest hlt ⟨hne, _, h2⟩
+    have hne' : ∀ b ∈ n :: rest, b.items ≠ [] := fun b hb => hne b (by
+      simp only [List.cons_append, List.nil_append, List.mem_cons] at hb ⊢; tauto)
+    refine ⟨?_, by simp, pool_chain obs solve c n rest hne' (List.isChain_cons_cons.mp h2).2⟩
+    intro b hb
+    simp only [List.cons_append, List.nil_append, List.mem_cons] at hb
+    rcases hb with rfl | hb
+    · simp [pool, hne c (by simp)]
+    · exact hne' b (List.mem_cons_of_mem _ (takeRun_mem _ _ hb))
+  · rintro p l' c n rest hlt ⟨hne, h1, h2⟩
+    have hne' : ∀ b ∈ n :: rest, b.items ≠ [] := fun b hb => hne b (by
+      simp only [List.cons_append, List.mem_cons, List.mem_append] at hb ⊢; tauto)
+    have hcne : c.items ≠ [] := hne c (by simp)
+    rw [List.reverse_cons] at h1
+    have h1' := List.isChain_append.mp h1
+    refine ⟨?_, h1'.1, ?_⟩
+    · intro b hb
+      simp only [List.cons_append, List.mem_cons, List.mem_append] at hb
+      rcases hb with rfl | hb | rfl | hb
+      · exact hne b (by simp)
+      · exact hne b (by simp [hb])
+      · simp [pool, hcne]
+      · exact hne' b (List.mem_cons_of_mem _ (takeRun_mem _ _ hb))
+    · refine List.IsChain.cons_cons ?_ (pool_chain obs solve c n rest hne' (List.isChain_cons_cons.mp h2).2)
+      left
+      have hpc : Good obs p c := by
+        apply h1'.2.2 p _ c _ <;> simp
+      intro x hx y hy
+      have : (pool solve c n rest).items.head? = c.items.head? := by
+        simp [pool, List.append_assoc, List.head?_append_of_ne_nil _ hcne]
+      rw [this] at hy
+      exact hpc x hx y hy
+
+theorem pav_good (obs : α → Rat) (solve : List α → Rat) (ys : List α) :
+    (pav obs solve ys).IsChain (Good obs) := by
+  unfold pav
+  split
+  · simp
+  · rename_i b bs heq
+    have hraw : ∀ c ∈ b :: bs, IsRaw obs c := by
+      rw [← heq]; intro c hc
+      obtain ⟨x, _, rfl⟩ := List.mem_map.mp hc
+      exact ⟨x, rfl⟩
+    apply go_good
+    · intro c hc
+      obtain ⟨x, rfl⟩ := hraw c (by simpa using hc)
+      simp [raw]
+    · simp
+    · have : ∀ l : List (Blk α), (∀ c ∈ l, IsRaw obs c) → l.IsChain (GR obs) := by
+        intro l
+        induction l with
+        | nil => simp
+        | cons a t ih =>
+          intro h
+          refine List.IsChain.cons (ih fun c hc => h c (by simp [hc])) ?_
+          intro y hy
+          exact Or.inr ⟨h a (by simp), h y (by simp [List.mem_of_mem_head? hy])⟩
+      exact this _ hraw
+
+/-! ### 5. consequences for the fitted sequence -/
+
+theorem isChain_and {β : Type} {R S : β → β → Prop} {l : List β} (h1 : l.IsChain R) (h2 : l.IsChain S) :
+    l.IsChain (fun a b => R a b ∧ S a b) := by
+  induction l with
+  | nil => simp
+  | cons a t ih =>
+    cases t with
+    | nil => simp
+    | cons b t =>
+      simp only [List.isChain_cons_cons] at *
+      exact ⟨⟨h1.1, h2.1⟩, ih h1.2 h2.2⟩
+
+theorem expand_fst (bs : List (Blk α)) : (expand bs).map (·.1) = flat bs := by
+  induction bs with
+  | nil => simp [expand]
+  | cons b t ih =>
+    simp only [expand, List.flatMap_cons, List.map_append, flat_cons] at *
+    rw [ih]; congr 1
+    rw [List.map_map]
+    exact List.map_id _
+
+theorem expand_monotone (bs : List (Blk α)) (h : bs.Pairwise (fun a b => a.val < b.val)) :
+    (expand bs).Pairwise (fun a b => a.2 ≤ b.2) := by
+  unfold expand
+  rw [List.pairwise_flatMap]
+  refine ⟨?_, h.imp ?_⟩
+  · intro b _
+    rw [List.pairwise_map]
+    exact List.pairwise_of_forall (fun _ _ => le_refl _)
+  · intro a b hab x hx y hy
+    obtain ⟨_, _, rfl⟩ := List.mem_map.mp hx
+    obtain ⟨_, _, rfl⟩ := List.mem_map.mp hy
+    exact le_of_lt hab
+
+/-- if equal keys of ADJACENT input items force the observations to be non-increasing, then adjacent fitted items
+    with equal keys carry the same fitted value (for any solver) -/
+theorem expand_ties (obs key : α → Rat) (bs : List (Blk α)) (hne : ∀ b ∈ bs, b.items ≠ [])
+    (hg : bs.IsChain (Good obs)) (hs : (flat bs).IsChain (fun a b => key a = key b → obs b ≤ obs a)) :
+    (expand bs).IsChain (fun a b => key a.1 = key b.1 → a.2 = b.2) := by
+  have hs' : bs.IsChain (fun a b => ∀ x ∈ a.items.getLast?, ∀ y ∈ b.items.head?, key x = key y → obs y ≤ obs x) := by
+    unfold flat at hs
+    rw [List.flatMap_def, List.isChain_flatten] at hs
+    · exact (List.isChain_map _).mp hs.2
+    · intro hmem
+      obtain ⟨b, hb, hb'⟩ := List.mem_map.mp hmem
+      exact hne b hb hb'
+  unfold expand
+  rw [List.flatMap_def, List.isChain_flatten]
+  · refine ⟨?_, ?_⟩
+    · intro l hl
+      obtain ⟨b, _, rfl⟩ := List.mem_map.mp hl
+      rw [List.isChain_map]
+      exact List.Pairwise.isChain (List.pairwise_of_forall (fun _ _ _ => rfl))
+    · rw [List.isChain_map]
+      refine (isChain_and hg hs').imp ?_
+      rintro a b ⟨hgood, hsort⟩ x hx y hy hk
+      rw [List.getLast?_map] at hx
+      rw [List.head?_map] at hy
+      obtain ⟨x0, hx0, rfl⟩ := Option.mem_map.mp hx
+      obtain ⟨y0, hy0, rfl⟩ := Option.mem_map.mp hy
+      exact absurd (hsort x0 hx0 y0 hy0 hk) (not_le.mpr (hgood x0 hx0 y0 hy0))
+  · intro hmem
+    obtain ⟨b, hb, hb'⟩ := List.mem_map.mp hmem
+    exact hne b hb (by simpa using hb'.symm)
+
+theorem fit_fst (obs : α → Rat) (solve : List α → Rat) (ys : List α) : (fit obs solve ys).map (·.1) = ys := by
+  unfold fit; rw [expand_fst, pav_flat]
+
+theorem fit_monotone (obs : α → Rat) (solve : List α → Rat) (ys : List α) :
+    (fit obs solve ys).Pairwise (fun a b => a.2 ≤ b.2) :=
+  expand_monotone _ (pav_increasing obs solve ys)
+
+theorem fit_ties (obs key : α → Rat) (solve : List α → Rat) (ys : List α)
+    (hs : ys.IsChain (fun a b => key a = key b → obs b ≤ obs a)) :
+    (fit obs solve ys).IsChain (fun a b => key a.1 = key b.1 → a.2 = b.2) := by
+  unfold fit
+  apply expand_ties obs key
+  · exact fun b hb => (pav_ok obs solve ys b hb).1
+  · exact pav_good obs solve ys
+  · rw [pav_flat]; exact hs
+
+/-! ### 6. `tidy` sorts by (forecast ascending, observation descending) -/
+
+theorem keyLe_iff (a b : Pair) : keyLe a b = true ↔ a.1 < b.1 ∨ (a.1 = b.1 ∧ b.2.1 ≤ a.2.1) := by
+  simp [keyLe]
+
+theorem tidy_sorted (ps : List Pair) : (tidy ps).Pairwise (fun a b => keyLe a b = true) := by
+  unfold tidy
+  apply List.pairwise_mergeSort
+  · intro a b c hab hbc
+    rw [keyLe_iff] at *
+    rcases hab with h1 | ⟨h1, h1'⟩ <;> rcases hbc with h2 | ⟨h2, h2'⟩
+    · exact Or.inl (lt_trans h1 h2)
+    · exact Or.inl (h2 ▸ h1)
+    · exact Or.inl (h1 ▸ h2)
+    · exact Or.inr ⟨h1.trans h2, le_trans h2' h1'⟩
+  · intro a b
+    rw [Bool.or_eq_true, keyLe_iff, keyLe_iff]
+    rcases lt_trichotomy a.1 b.1 with h | h | h
+    · exact Or.inl (Or.inl h)
+    · rcases le_total a.2.1 b.2.1 with h' | h'
+      · exact Or.inr (Or.inr ⟨h.symm, h'⟩)
+      · exact Or.inl (Or.inr ⟨h, h'⟩)
+    · exact Or.inr (Or.inl h)
+
+theorem tidy_perm (ps : List Pair) : (tidy ps).Perm ps := List.mergeSort_perm _ _
+
+/-! ### 7. counts -/
+
+theorem groups_count_sum (z : List (Rat × Rat)) : ((groups z).map (·.2.1)).sum = z.length := by
+  induction z with
+  | nil => simp [groups]
+  | cons a t ih =>
+    obtain ⟨f, y⟩ := a
+    unfold groups
+    split
+    · rename_i heq; rw [heq] at ih
+      cases t with
+      | nil => simp
+      | cons a' t' => simp at ih
+    · rename_i f' c y' g heq
+      rw [heq] at ih
+      simp only [List.map_cons, List.sum_cons, List.length_cons] at ih ⊢
+      split <;> simp only [List.map_cons, List.sum_cons] <;> omega
+
+/-! ### 8. the weighted mean -/
+
+theorem wsum_cons (x : Item) (l : List Item) : wsum (x :: l) = x.2 * x.1 + wsum l := by simp [wsum]
+theorem wtot_cons (x : Item) (l : List Item) : wtot (x :: l) = x.2 + wtot l := by simp [wtot]
+theorem wsum_append (a b : List Item) : wsum (a ++ b) = wsum a + wsum b := by simp [wsum]
+theorem wtot_append (a b : List Item) : wtot (a ++ b) = wtot a + wtot b := by simp [wtot]
+
+theorem wtot_pos {l : List Item} (hne : l ≠ []) (hw : ∀ x ∈ l, 0 < x.2) : 0 < wtot l := by
+  induction l with
+  | nil => exact absurd rfl hne
+  | cons x t ih =>
+    rw [wtot_cons]
+    have hx : 0 < x.2 := hw x (by simp)
+    by_cases ht : t = []
+    · subst ht; simpa [wtot] using hx
+    · have := ih ht (fun y hy => hw y (by simp [hy])); linarith
+
+theorem wsum_ge {l : List Item} (lo : Rat) (hw : ∀ x ∈ l, 0 < x.2) (hlo : ∀ x ∈ l, lo ≤ x.1) : lo * wtot l ≤ wsum l := by
+  induction l with
+  | nil => simp [wsum, wtot]
+  | cons x t ih =>
+    rw [wtot_cons, wsum_cons]
+    have := ih (fun y hy => hw y (by simp [hy])) (fun y hy => hlo y (by simp [hy]))
+    have h1 := hw x (by simp)
+    have h2 := hlo x (by simp)
+    nlinarith
+
+theorem wsum_le {l : List Item} (hi : Rat) (hw : ∀ x ∈ l, 0 < x.2) (hhi : ∀ x ∈ l, x.1 ≤ hi) : wsum l ≤ hi * wtot l := by
+  induction l with
+  | nil => simp [wsum, wtot]
+  | cons x t ih =>
+    rw [wtot_cons, wsum_cons]
+    have := ih (fun y hy => hw y (by simp [hy])) (fun y hy => hhi y (by simp [hy]))
+    have h1 := hw x (by simp)
+    have h2 := hhi x (by simp)
+    nlinarith
+
+theorem wmean_ge {l : List Item} (lo : Rat) (hne : l ≠ []) (hw : ∀ x ∈ l, 0 < x.2) (hlo : ∀ x ∈ l, lo ≤ x.1) :
+    lo ≤ wmean l := by
+  unfold wmean
+  rw [le_div_iff₀ (wtot_pos hne hw)]
+  exact wsum_ge lo hw hlo
+
+theorem wmean_le {l : List Item} (hi : Rat) (hne : l ≠ []) (hw : ∀ x ∈ l, 0 < x.2) (hhi : ∀ x ∈ l, x.1 ≤ hi) :
+    wmean l ≤ hi := by
+  unfold wmean
+  rw [div_le_iff₀ (wtot_pos hne hw)]
+  exact wsum_le hi hw hhi
+
+theorem wmean_singleton (x : Item) (hw : x.2 ≠ 0) : wmean [x] = x.1 := by
+  simp [wmean, wsum, wtot]; field_simp
+
+theorem wmean_mul_wtot {l : List Item} (h : wtot l ≠ 0) : wmean l * wtot l = wsum l := by
+  unfold wmean; field_simp
+
+/-! ### 9. the mean functional: KKT prefix invariant and optimality -/
+
+/-- Σ w and Σ w·y over a list of pairs -/
+def Wp (l : List Pair) : Rat := (l.map fun p => p.2.2).sum
+def Sp (l : List Pair) : Rat := (l.map fun p => p.2.2 * p.2.1).sum
+
+@[simp] theorem Wp_nil : Wp [] = 0 := rfl
+@[simp] theorem Sp_nil : Sp [] = 0 := rfl
+@[simp] theorem Wp_cons (p : Pair) (l : List Pair) : Wp (p :: l) = p.2.2 + Wp l := by simp [Wp]
+@[simp] theorem Sp_cons (p : Pair) (l : List Pair) : Sp (p :: l) = p.2.2 * p.2.1 + Sp l := by simp [Sp]
+@[simp] theorem Wp_append (a b : List Pair) : Wp (a ++ b) = Wp a + Wp b := by simp [Wp]
+@[simp] theorem Sp_append (a b : List Pair) : Sp (a ++ b) = Sp a + Sp b := by simp [Sp]
+
+theorem wtot_itemsOf (l : List Pair) : wtot (itemsOf l) = Wp l := by simp [wtot, itemsOf, Wp, List.map_map, Function.comp_def]
+theorem wsum_itemsOf (l : List Pair) : wsum (itemsOf l) = Sp l := by simp [wsum, itemsOf, Sp, List.map_map, Function.comp_def]
+theorem wmean_itemsOf (l : List Pair) : wmean (itemsOf l) = Sp l / Wp l := by simp [wmean, wtot_itemsOf, wsum_itemsOf]
+
+theorem Wp_nonneg {l : List Pair} (hw : ∀ p ∈ l, 0 < p.2.2) : 0 ≤ Wp l := by
+  induction l with
+  | nil => simp
+  | cons p t ih =>
+    have := ih (fun q hq => hw q (by simp [hq])); have := hw p (by simp); simp; linarith
+
+theorem Wp_pos {l : List Pair} (hne : l ≠ []) (hw : ∀ p ∈ l, 0 < p.2.2) : 0 < Wp l := by
+  cases l with
+  | nil => exact absurd rfl hne
+  | cons p t =>
+    have := Wp_nonneg (l := t) (fun q hq => hw q (by simp [hq])); have := hw p (by simp); simp; linarith
+
+theorem Wp_prefix_le {P l : List Pair} (hP : P <+: l) (hw : ∀ p ∈ l, 0 < p.2.2) : Wp P ≤ Wp l := by
+  obtain ⟨s, rfl⟩ := hP
+  have := Wp_nonneg (l := s) (fun q hq => hw q (by simp [hq]))
+  simp; linarith
+
+/-- KKT prefix condition: every prefix of the block has weighted mean ≥ μ (written without division) -/
+def KKT (μ : Rat) (l : List Pair) : Prop := ∀ P, P <+: l → μ * Wp P ≤ Sp P
+
+theorem prefix_append_cases {P A R : List Pair} (h : P <+: A ++ R) : P <+: A ∨ ∃ Q, Q <+: R ∧ P = A ++ Q := by
+  induction A generalizing P with
+  | nil => exact Or.inr ⟨P, by simpa using h, by simp⟩
+  | cons a A' ih =>
+    rw [List.cons_append, List.prefix_cons_iff] at h
+    rcases h with rfl | ⟨t, rfl, ht⟩
+    · exact Or.inl (List.nil_prefix)
+    · rcases ih ht with h1 | ⟨Q, hQ, rfl⟩
+      · exact Or.inl ((List.cons_prefix_cons).mpr ⟨rfl, h1⟩)
+      · exact Or.inr ⟨Q, hQ, by simp⟩
+
+/-- two adjacent KKT blocks with non-increasing means pool into a KKT block; the pooled mean lies between -/
+theorem kkt_pool {A R : List Pair} {a r : Rat} (hA : KKT a A) (hR : KKT r R) (bA : Sp A = a * Wp A) (bR : Sp R = r * Wp R)
+    (hra : r ≤ a) (wA : 0 < Wp A) (wR : 0 < Wp R) (hwR : ∀ p ∈ R, 0 < p.2.2) (hwA : ∀ p ∈ A, 0 < p.2.2) :
+    KKT (Sp (A ++ R) / Wp (A ++ R)) (A ++ R) ∧ Sp (A ++ R) / Wp (A ++ R) ≤ a ∧ r ≤ Sp (A ++ R) / Wp (A ++ R) := by
+  have hW : 0 < Wp (A ++ R) := by simp; linarith
+  set μ := Sp (A ++ R) / Wp (A ++ R) with hμ
+  have hμW : μ * (Wp A + Wp R) = a * Wp A + r * Wp R := by
+    rw [hμ]; simp only [Sp_append, Wp_append, bA, bR]; field_simp
+  have hμa : μ ≤ a := by
+    rw [hμ, div_le_iff₀ hW]; simp only [Sp_append, Wp_append, bA, bR]; nlinarith
+  have hrμ : r ≤ μ := by
+    rw [hμ, le_div_iff₀ hW]; simp only [Sp_append, Wp_append, bA, bR]; nlinarith
+  refine ⟨?_, hμa, hrμ⟩
+  intro P hP
+  rcases prefix_append_cases hP with h1 | ⟨Q, hQ, rfl⟩
+  · have := hA P h1
+    have hwp : 0 ≤ Wp P := by
+      obtain ⟨s, rfl⟩ := h1
+      exact Wp_nonneg (fun q hq => hwA q (by simp [hq]))
+    nlinarith
+  · have h2 := hR Q hQ
+    have hq : Wp Q ≤ Wp R := Wp_prefix_le hQ hwR
+    simp only [Sp_append, Wp_append, bA]
+    nlinarith
+
+/-- block invariant for the mean functional -/
+def KBlk (b : Blk Pair) : Prop :=
+  b.items ≠ [] ∧ (∀ p ∈ b.items, 0 < p.2.2) ∧ Sp b.items = b.val * Wp b.items ∧ KKT b.val b.items
+
+theorem kblk_raw (p : Pair) (hw : 0 < p.2.2) : KBlk (raw obsOf p) := by
+  refine ⟨by simp [raw], by simpa [raw] using hw, by simp [raw, obsOf]; ring, ?_⟩
+  intro P hP
+  simp only [raw] at hP
+  rw [List.prefix_cons_iff] at hP
+  rcases hP with rfl | ⟨t, rfl, ht⟩
+  · simp
+  · have : t = [] := by simpa using ht
+    subst this
+    simp [raw, obsOf]; ring_nf; exact le_refl _
+
+theorem kkt_self_mean {l : List Pair} {v : Rat} (hK : KKT v l) (hb : Sp l = v * Wp l) (hW : 0 < Wp l) :
+    KKT (Sp l / Wp l) l ∧ Sp l / Wp l = v := by
+  have : Sp l / Wp l = v := by rw [hb]; field_simp
+  rw [this]; exact ⟨hK, rfl⟩
+
+theorem takeRun_kkt (n : Blk Pair) (rest : List (Blk Pair)) (hn : KBlk n) (hr : ∀ b ∈ rest, KBlk b) :
+    KKT (Sp (n.items ++ (takeRun n.val rest).1) / Wp (n.items ++ (takeRun n.val rest).1)) (n.items ++ (takeRun n.val rest).1) ∧
+    Sp (n.items ++ (takeRun n.val rest).1) / Wp (n.items ++ (takeRun n.val rest).1) ≤ n.val ∧
+    (∀ p ∈ n.items ++ (takeRun n.val rest).1, 0 < p.2.2) ∧ n.items ++ (takeRun n.val rest).1 ≠ [] := by
+  induction rest generalizing n with
+  | nil =>
+    obtain ⟨hne, hw, hb, hK⟩ := hn
+    have hW := Wp_pos hne hw
+    have := kkt_self_mean hK hb hW
+    simp only [takeRun, List.append_nil]
+    exact ⟨this.1, le_of_eq this.2, hw, hne⟩
+  | cons s rest' ih =>
+    obtain ⟨hne, hw, hb, hK⟩ := hn
+    have hW := Wp_pos hne hw
+    unfold takeRun
+    split
+    · have := kkt_self_mean hK hb hW
+      simp only [List.append_nil]
+      exact ⟨this.1, le_of_eq this.2, hw, hne⟩
+    · rename_i hlt
+      have hsn : s.val ≤ n.val := not_lt.mp hlt
+      obtain ⟨k1, k2, k3, k4⟩ := ih s (hr s (by simp)) (fun b hb => hr b (by simp [hb]))
+      simp only
+      have hWR := Wp_pos k4 k3
+      have bR : Sp (s.items ++ (takeRun s.val rest').1) =
+          Sp (s.items ++ (takeRun s.val rest').1) / Wp (s.items ++ (takeRun s.val rest').1) * Wp (s.items ++ (takeRun s.val rest').1) := by
+        field_simp
+      have := kkt_pool hK k1 hb bR (le_trans k2 hsn) hW hWR k3 hw
+      refine ⟨this.1, this.2.1, ?_, by simp [hne]⟩
+      intro p hp
+      rcases List.mem_append.mp hp with h | h
+      · exact hw p h
+      · exact k3 p h
+
+theorem pool_kblk (c n : Blk Pair) (rest : List (Blk Pair)) (hc : KBlk c) (hn : KBlk n) (hr : ∀ b ∈ rest, KBlk b)
+    (hnc : ¬ c.val < n.val) : KBlk (pool (fun l => wmean (itemsOf l)) c n rest) := by
+  obtain ⟨k1, k2, k3, k4⟩ := takeRun_kkt n rest hn hr
+  obtain ⟨hne, hw, hb, hK⟩ := hc
+  have hW := Wp_pos hne hw
+  have hWR := Wp_pos k4 k3
+  have bR : Sp (n.items ++ (takeRun n.val rest).1) =
+      Sp (n.items ++ (takeRun n.val rest).1) / Wp (n.items ++ (takeRun n.val rest).1) * Wp (n.items ++ (takeRun n.val rest).1) := by
+    field_simp
+  have := kkt_pool hK k1 hb bR (le_trans k2 (not_lt.mp hnc)) hW hWR k3 hw
+  have hitems : (pool (fun l => wmean (itemsOf l)) c n rest).items = c.items ++ (n.items ++ (takeRun n.val rest).1) := by
+    simp [pool, List.append_assoc]
+  have hval : (pool (fun l => wmean (itemsOf l)) c n rest).val =
+      Sp (c.items ++ (n.items ++ (takeRun n.val rest).1)) / Wp (c.items ++ (n.items ++ (takeRun n.val rest).1)) := by
+    simp only [pool, wmean_itemsOf, List.append_assoc]
+  have hWall : 0 < Wp (c.items ++ (n.items ++ (takeRun n.val rest).1)) := by rw [Wp_append]; linarith
+  refine ⟨by rw [hitems]; simp [hne], ?_, ?_, ?_⟩
+  · rw [hitems]; intro p hp
+    rcases List.mem_append.mp hp with h | h
+    · exact hw p h
+    · exact k3 p h
+  · rw [hitems, hval]; field_simp
+  · rw [hitems, hval]; exact this.1
+
+theorem go_kblk (left : List (Blk Pair)) (cur : Blk Pair) (right : List (Blk Pair))
+    (h : ∀ b ∈ cur :: left ++ right, KBlk b) : ∀ b ∈ go (fun l => wmean (itemsOf l)) left cur right, KBlk b := by
+  refine go_inv _ (fun l c r => ∀ b ∈ c :: l ++ r, KBlk b) (fun res => ∀ b ∈ res, KBlk b) ?_ ?_ ?_ ?_ left cur right h
+  · intro l c h b hb
+    exact h b (by simpa using List.mem_reverse.mp hb)
+  · intro l c n rest _ h b hb
+    apply h b
+    simp only [List.cons_append, List.mem_cons, List.mem_append] at hb ⊢
+    tauto
+  · intro c n rest hlt h b hb
+    simp only [List.cons_append, List.nil_append, List.mem_cons] at hb
+    rcases hb with rfl | hb
+    · exact pool_kblk c n rest (h c (by simp)) (h n (by simp)) (fun b hb => h b (by simp [hb])) hlt
+    · exact h b (by simp [takeRun_mem _ _ hb])
+  · intro p l' c n rest hlt h b hb
+    simp only [List.cons_append, List.mem_cons, List.mem_append] at hb
+    rcases hb with rfl | hb | rfl | hb
+    · exact h b (by simp)
+    · exact h b (by simp [hb])
+    · exact pool_kblk c n rest (h c (by simp)) (h n (by simp)) (fun b hb => h b (by simp [hb])) hlt
+    · exact h b (by simp [takeRun_mem _ _ hb])
+
+theorem pav_kblk (t : List Pair) (hw : ∀ p ∈ t, 0 < p.2.2) :
+    ∀ b ∈ pav obsOf (fun l => wmean (itemsOf l)) t, KBlk b := by
+  unfold pav
+  split
+  · simp
+  · rename_i b bs heq
+    apply go_kblk
+    intro c hc
+    have hc' : c ∈ t.map (raw obsOf) := by rw [heq]; simpa using hc
+    obtain ⟨p, hp, rfl⟩ := List.mem_map.mp hc'
+    exact kblk_raw p (hw p hp)
+
+/-! ### optimality of the mean fit (Abel summation from the KKT prefix condition) -/
+
+theorem abel (μ : Rat) (z : Pair → Rat) (l : List Pair) (hK : KKT μ l) (hz : (l.map z).Pairwise (· ≤ ·))
+    (ub : Rat) (hub : ∀ x ∈ l, z x ≤ ub) :
+    (l.map fun p => p.2.2 * (p.2.1 - μ) * z p).sum ≤ (Sp l - μ * Wp l) * ub := by
+  induction l using List.reverseRecOn generalizing ub with
+  | nil => simp
+  | append_singleton l' x ih =>
+    have hK' : KKT μ l' := fun P hP => hK P (hP.trans (List.prefix_append _ _))
+    rw [List.map_append, List.pairwise_append] at hz
+    have hle : ∀ y ∈ l', z y ≤ z x := by
+      intro y hy
+      exact hz.2.2 (z y) (List.mem_map_of_mem hy) (z x) (by simp)
+    have := ih hK' hz.1 (z x) hle
+    have hnn : 0 ≤ Sp (l' ++ [x]) - μ * Wp (l' ++ [x]) := by
+      have := hK (l' ++ [x]) (List.prefix_refl _); linarith
+    have hx : z x ≤ ub := hub x (by simp)
+    simp only [List.map_append, List.map_cons, List.map_nil, List.sum_append, List.sum_cons, List.sum_nil, Sp_append,
+      Wp_append, Sp_cons, Wp_cons, Sp_nil, Wp_nil, add_zero] at hnn ⊢
+    nlinarith
+
+theorem abel0 (μ : Rat) (z : Pair → Rat) (l : List Pair) (hK : KKT μ l) (hb : Sp l = μ * Wp l)
+    (hz : (l.map z).Pairwise (· ≤ ·)) : (l.map fun p => p.2.2 * (p.2.1 - μ) * z p).sum ≤ 0 := by
+  rcases List.eq_nil_or_concat l with rfl | ⟨l', x, rfl⟩
+  · simp
+  · rw [List.concat_eq_append] at *
+    have hz' := hz
+    rw [List.map_append, List.pairwise_append] at hz'
+    have := abel μ z (l' ++ [x]) hK hz (z x) (by
+      intro y hy
+      rcases List.mem_append.mp hy with h | h
+      · exact hz'.2.2 (z y) (List.mem_map_of_mem h) (z x) (by simp)
+      · simp at h; subst h; exact le_refl _)
+    rw [hb] at this
+    simpa using this
+
+theorem sse_split (μ : Rat) (z : Pair → Rat) (l : List Pair) :
+    (l.map fun p => p.2.2 * (p.2.1 - z p) ^ 2).sum =
+      (l.map fun p => p.2.2 * (p.2.1 - μ) ^ 2).sum + (l.map fun p => p.2.2 * (μ - z p) ^ 2).sum
+        + 2 * (μ * (Sp l - μ * Wp l) - (l.map fun p => p.2.2 * (p.2.1 - μ) * z p).sum) := by
+  induction l with
+  | nil => simp
+  | cons p t ih => simp only [List.map_cons, List.sum_cons, Sp_cons, Wp_cons, ih]; ring
+
+/-- on one KKT block the block mean beats every competitor that is non-decreasing along the block, with the
+    strong-convexity gap Σ w (μ − z)² -/
+theorem block_optimal (b : Blk Pair) (hb : KBlk b) (z : Pair → Rat) (hz : (b.items.map z).Pairwise (· ≤ ·)) :
+    (b.items.map fun p => p.2.2 * (p.2.1 - b.val) ^ 2).sum + (b.items.map fun p => p.2.2 * (b.val - z p) ^ 2).sum
+      ≤ (b.items.map fun p => p.2.2 * (p.2.1 - z p) ^ 2).sum := by
+  obtain ⟨_, hw, hbal, hK⟩ := hb
+  rw [sse_split b.val z b.items]
+  have h1 := abel0 b.val z b.items hK hbal hz
+  rw [hbal]
+  nlinarith
+
+theorem blocks_optimal (bs : List (Blk Pair)) (hb : ∀ b ∈ bs, KBlk b) (z : Pair → Rat)
+    (hz : ((flat bs).map z).Pairwise (· ≤ ·)) :
+    ((expand bs).map fun pv => pv.1.2.2 * (pv.1.2.1 - pv.2) ^ 2).sum + ((expand bs).map fun pv => pv.1.2.2 * (pv.2 - z pv.1) ^ 2).sum
+      ≤ ((flat bs).map fun p => p.2.2 * (p.2.1 - z p) ^ 2).sum := by
+  induction bs with
+  | nil => simp [expand]
+  | cons b rest ih =>
+    rw [flat_cons, List.map_append, List.pairwise_append] at hz
+    have h1 := block_optimal b (hb b (by simp)) z hz.1
+    have h2 := ih (fun c hc => hb c (by simp [hc])) hz.2.1
+    simp only [expand, List.flatMap_cons, List.map_append, List.sum_append, flat_cons] at h2 ⊢
+    have h3 : (List.map (fun pv : Pair × Rat => pv.1.2.2 * (pv.1.2.1 - pv.2) ^ 2) (List.map (fun x => (x, b.val)) b.items)).sum
+        = (b.items.map fun p => p.2.2 * (p.2.1 - b.val) ^ 2).sum := by
+      rw [List.map_map]; rfl
+    have h4 : (List.map (fun pv : Pair × Rat => pv.1.2.2 * (pv.2 - z pv.1) ^ 2) (List.map (fun x => (x, b.val)) b.items)).sum
+        = (b.items.map fun p => p.2.2 * (b.val - z p) ^ 2).sum := by
+      rw [List.map_map]; rfl
+    rw [h3, h4]
+    linarith
+
+/-- a sum of non-negative terms that is ≤ 0 has only zero terms -/
+theorem all_zero_of_sum_nonpos {β : Type} (l : List β) (f : β → Rat) (hnn : ∀ x ∈ l, 0 ≤ f x) (h : (l.map f).sum ≤ 0) :
+    ∀ x ∈ l, f x = 0 := by
+  induction l with
+  | nil => simp
+  | cons a t ih =>
+    simp only [List.map_cons, List.sum_cons] at h
+    have ha := hnn a (by simp)
+    have ht : 0 ≤ (t.map f).sum := List.sum_nonneg (by
+      intro y hy; obtain ⟨x, hx, rfl⟩ := List.mem_map.mp hy; exact hnn x (by simp [hx]))
+    intro x hx
+    rcases List.mem_cons.mp hx with rfl | hm
+    · linarith
+    · exact ih (fun y hy => hnn y (by simp [hy])) (by linarith) x hm
+
+/-! ### 10. `_nanquantile` is monotone in the level -/
+
+theorem lerpAt_bounds (A : Int → Rat) (pos : Rat) (h : A pos.floor ≤ A pos.ceil) :
+    A pos.floor ≤ lerpAt A pos ∧ lerpAt A pos ≤ A pos.ceil := by
+  unfold lerpAt
+  split
+  · rename_i heq; rw [← heq]; exact ⟨le_refl _, le_refl _⟩
+  · rename_i hne
+    have h1 : (pos.floor : Rat) ≤ pos := Rat.floor_le pos
+    have h2 : pos ≤ (pos.ceil : Rat) := Rat.le_ceil
+    have h3 : pos.ceil ≤ pos.floor + 1 := by
+      rw [Rat.ceil_le_iff]; exact le_of_lt (Rat.lt_floor_add_one pos)
+    have h4 : pos.floor < pos.ceil := by
+      have : pos.floor ≤ pos.ceil := by
+        have : (pos.floor : Rat) ≤ (pos.ceil : Rat) := le_trans h1 h2
+        exact_mod_cast this
+      omega
+    have h5 : pos.ceil = pos.floor + 1 := by omega
+    have h6 : (pos.ceil : Rat) = (pos.floor : Rat) + 1 := by rw [h5]; push_cast; ring
+    have e1 := mul_nonneg (sub_nonneg.mpr h) (sub_nonneg.mpr h1)
+    have e2 := mul_nonneg (sub_nonneg.mpr h) (sub_nonneg.mpr h2)
+    rw [h6] at e2 ⊢
+    constructor <;> nlinarith
+
+theorem lerpAt_mono (A : Int → Rat) (lo hi : Int) (hA : ∀ i j, lo ≤ i → i ≤ j → j ≤ hi → A i ≤ A j)
+    (p1 p2 : Rat) (h12 : p1 ≤ p2) (h1 : (lo : Rat) ≤ p1) (h2 : p2 ≤ (hi : Rat)) : lerpAt A p1 ≤ lerpAt A p2 := by
+  have f1lo : lo ≤ p1.floor := Rat.le_floor_iff.mpr h1
+  have f12 : p1.floor ≤ p2.floor := Rat.floor_monotone h12
+  have c2hi : p2.ceil ≤ hi := Rat.ceil_le_iff.mpr h2
+  have fc1 : p1.floor ≤ p1.ceil := by
+    have : (p1.floor : Rat) ≤ (p1.ceil : Rat) := le_trans (Rat.floor_le p1) Rat.le_ceil
+    exact_mod_cast this
+  have fc2 : p2.floor ≤ p2.ceil := by
+    have : (p2.floor : Rat) ≤ (p2.ceil : Rat) := le_trans (Rat.floor_le p2) Rat.le_ceil
+    exact_mod_cast this
+  have c1le : p1.ceil ≤ p1.floor + 1 := by
+    rw [Rat.ceil_le_iff]; exact le_of_lt (Rat.lt_floor_add_one p1)
+  have c2le : p2.ceil ≤ p2.floor + 1 := by
+    rw [Rat.ceil_le_iff]; exact le_of_lt (Rat.lt_floor_add_one p2)
+  have c12 : p1.ceil ≤ p2.ceil := Rat.ceil_le_iff.mpr (le_trans h12 Rat.le_ceil)
+  have b1 := lerpAt_bounds A p1 (hA _ _ f1lo fc1 (by omega))
+  have b2 := lerpAt_bounds A p2 (hA _ _ (by omega) fc2 c2hi)
+  by_cases hcase : p1.ceil ≤ p2.floor
+  · have := hA p1.ceil p2.floor (by omega) hcase (by omega)
+    linarith [b1.2, b2.1]
+  · have hf : p2.floor = p1.floor := by omega
+    have hc1 : p1.ceil = p1.floor + 1 := by omega
+    have hlt1 : (p1.floor : Rat) < p1 := by
+      have : p1.floor < p1.ceil := by omega
+      exact Rat.lt_ceil_iff.mp this
+    have hlt2 : (p2.floor : Rat) < p2 := by rw [hf]; exact lt_of_lt_of_le hlt1 h12
+    have hc2 : p2.ceil = p2.floor + 1 := by
+      have : p2.floor < p2.ceil := Rat.lt_ceil_iff.mpr hlt2
+      omega
+    have hne1 : ¬ p1.floor = p1.ceil := by omega
+    have hne2 : ¬ p2.floor = p2.ceil := by omega
+    unfold lerpAt
+    rw [if_neg hne1, if_neg hne2, hc1, hc2, hf]
+    have hAA := hA p1.floor (p1.floor + 1) f1lo (by omega) (by omega)
+    push_cast
+    have e := mul_nonneg (sub_nonneg.mpr hAA) (sub_nonneg.mpr h12)
+    nlinarith
+
+theorem insertSorted_mem (x y : Rat) (l : List Rat) : y ∈ insertSorted x l ↔ y = x ∨ y ∈ l := by
+  induction l with
+  | nil => simp [insertSorted]
+  | cons a t ih =>
+    unfold insertSorted
+    split
+    · simp
+    · simp [ih]; tauto
+
+theorem insertSorted_sorted (x : Rat) (l : List Rat) (h : l.Pairwise (· ≤ ·)) : (insertSorted x l).Pairwise (· ≤ ·) := by
+  induction l with
+  | nil => simp [insertSorted]
+  | cons a t ih =>
+    unfold insertSorted
+    split
+    · rename_i hxa
+      refine List.pairwise_cons.mpr ⟨?_, h⟩
+      intro y hy
+      rcases List.mem_cons.mp hy with rfl | hm
+      · exact hxa
+      · exact le_trans hxa ((List.pairwise_cons.mp h).1 y hm)
+    · rename_i hxa
+      have hax : a ≤ x := le_of_lt (not_le.mp hxa)
+      refine List.pairwise_cons.mpr ⟨?_, ih (List.pairwise_cons.mp h).2⟩
+      intro y hy
+      rcases (insertSorted_mem x y t).mp hy with rfl | hm
+      · exact hax
+      · exact (List.pairwise_cons.mp h).1 y hm
+
+theorem insertSorted_length (x : Rat) (l : List Rat) : (insertSorted x l).length = l.length + 1 := by
+  induction l with
+  | nil => simp [insertSorted]
+  | cons a t ih => unfold insertSorted; split <;> simp [ih]
+
+theorem sortAsc_sorted (xs : List Rat) : (sortAsc xs).Pairwise (· ≤ ·) := by
+  induction xs with
+  | nil => simp [sortAsc]
+  | cons a t ih => simpa [sortAsc] using insertSorted_sorted a _ ih
+
+theorem sortAsc_length (xs : List Rat) : (sortAsc xs).length = xs.length := by
+  induction xs with
+  | nil => simp [sortAsc]
+  | cons a t ih =>
+    have : sortAsc (a :: t) = insertSorted a (sortAsc t) := by simp [sortAsc]
+    rw [this, insertSorted_length, ih]; simp
+
+theorem atIdx_mono (arr : List Rat) (hs : arr.Pairwise (· ≤ ·)) (i j : Int) (hi : 0 ≤ i) (hij : i ≤ j)
+    (hj : j ≤ (arr.length : Int) - 1) : atIdx arr i ≤ atIdx arr j := by
+  unfold atIdx
+  have hi' : ¬ i < 0 := by omega
+  have hj' : ¬ j < 0 := by omega
+  rw [if_neg hi', if_neg hj']
+  have h1 : i.toNat < arr.length := by omega
+  have h2 : j.toNat < arr.length := by omega
+  rw [List.getD_eq_getElem?_getD, List.getD_eq_getElem?_getD, List.getElem?_eq_getElem h1, List.getElem?_eq_getElem h2]
+  simp only [Option.getD_some]
+  rcases Nat.lt_or_ge i.toNat j.toNat with h | h
+  · exact (List.pairwise_iff_getElem.mp hs) _ _ h1 h2 h
+  · have : i.toNat = j.toNat := by omega
+    simp [this]
+
+theorem finVals_length_le (col : List Fl) : (finVals col).length ≤ col.length := by
+  unfold finVals; exact List.length_filterMap_le _ _
+
+/-- `_nanquantile` is monotone in the level on a column with at least one finite value -/
+theorem nanquantile_mono (m : Rat) (col : List Fl) (q1 q2 : Rat) (h0 : 0 ≤ q1) (h12 : q1 ≤ q2) (h1 : q2 ≤ 1)
+    (hv : 1 ≤ (finVals col).length) :
+    ∃ a b, nanquantileCol (some m) col q1 = Fl.fin a ∧ nanquantileCol (some m) col q2 = Fl.fin b ∧ a ≤ b := by
+  refine ⟨_, _, rfl, rfl, ?_⟩
+  have hlen : (sortAsc (fillCol m col)).length = col.length := by rw [sortAsc_length]; simp [fillCol]
+  have hle := finVals_length_le col
+  have hn : (0 : Rat) ≤ ((((finVals col).length : Int) - 1 : Int) : Rat) := by
+    have : (0 : Int) ≤ ((finVals col).length : Int) - 1 := by omega
+    exact_mod_cast this
+  apply lerpAt_mono _ 0 (((finVals col).length : Int) - 1)
+  · intro i j hi hij hj
+    exact atIdx_mono _ (sortAsc_sorted _) i j hi hij (by rw [hlen]; omega)
+  · exact mul_le_mul_of_nonneg_left h12 hn
+  · simpa using mul_nonneg hn h0
+  · calc _ ≤ ((((finVals col).length : Int) - 1 : Int) : Rat) * 1 := mul_le_mul_of_nonneg_left h1 hn
+      _ = _ := by ring
 
 end SV.Model.Isotonic
